@@ -236,6 +236,14 @@ theorem C07_code_facts :
     Gen.SyncFacts.errHandledLocally_treeCore = ["getSiblings:t.getRHTNode"] ∧
     Gen.SyncFacts.errHandledLocally_treeAppendOnly = [] ∧
     Gen.SyncFacts.errHandledLocally_treeUpdatable = ["UpsertLeaf:t.getLastRootWithTx"] ∧
+    -- `Commit` / `Rollback` of the transaction wrapper report every failure; a store halts ONLY on a real mismatch (a
+    -- deposit-count gap / an announced root or leaf count that differs) — never on a transient read or write error
+    Gen.SyncFacts.errToNil_dbTx = [] ∧
+    Gen.SyncFacts.txBody_Commit = "{ if err := s.SQLTxer.Commit(); err != nil { return err } for _, cb := range s.commitCallbacks { cb() } return nil }" ∧
+    Gen.SyncFacts.txBody_Rollback = "{ if err := s.SQLTxer.Rollback(); err != nil { return err } for _, cb := range s.rollbackCallbacks { cb() } return nil }" ∧
+    Gen.SyncFacts.haltConds_bridge = ["errors.Is(err, tree.ErrInvalidIndex)"] ∧
+    Gen.SyncFacts.haltConds_l1info =
+      ["root.Hash != event.UpdateL1InfoTreeV2.CurrentL1InfoRoot || root.Index+1 != event.UpdateL1InfoTreeV2.LeafCount"] ∧
     Gen.SyncFacts.rollbackGuard_bridge = "FLAG" ∧ Gen.SyncFacts.rollbackGuard_l1info = "FLAG" ∧
     Gen.SyncFacts.rollbackGuard_ger = "FLAG" ∧
     Gen.SyncFacts.rollbackFlagFlow_bridge = ["FLAG := true", "Commit", "FLAG = false"] ∧
